@@ -297,9 +297,13 @@ class Sched:
         if self.parks:
             # directed windows: "this task is descheduled at its n-th source line until <condition>" - a schedule every
             # preemptive system can produce, placed deliberately instead of waiting for the random walk to find it
-            n = self.line_count[me.name] = self.line_count.get(me.name, 0) + 1
             for pk in self.parks:
-                if not pk.get("done") and pk["task"] == me.name and n >= pk["nth"]:
+                if pk.get("done") or pk["task"] != me.name:
+                    continue
+                if pk.get("funcs") and kind.split(":")[1] not in pk["funcs"]:
+                    continue            # this park counts only the lines of the named functions
+                pk["count"] = pk.get("count", 0) + 1        # lines of this task since the park was set up
+                if pk["count"] > pk["nth"]:
                     pk["done"] = True
                     pk["at"] = kind
                     self.parked_at.append((me.name, kind))
